@@ -818,53 +818,74 @@ func g21ReserveEveryCalledName(r *Repo, rep *Report) {
 		// this test decides whether the callee's name is reserved: exitWhen is the outcome that leaves without reserving
 		n++
 		exitWhen := !t
-		ce := ast.Unparen(cond)
-		if u, ok := ce.(*ast.UnaryExpr); ok && u.Op == token.NOT {
-			ce = ast.Unparen(u.X)
-			exitWhen = !exitWhen
-		}
-		allowed := false
 		what := exprStr(cond)
-		switch x := ce.(type) {
-		case *ast.Ident:
-			// the ok of a type assertion or map lookup
-			if src := defOf(info.Uses[x], b.Nodes[len(b.Nodes)-1].Pos()); src != nil {
-				what = exprStr(src) + " " + map[bool]string{true: "succeeds", false: "fails"}[exitWhen]
-				switch y := ast.Unparen(src).(type) {
-				case *ast.TypeAssertExpr:
-					ts := exprStr(y.Type)
-					if (ts == "*ast.CallExpr" || ts == "*ast.Ident") && !exitWhen {
-						allowed = true // the node is no call / the callee is no bare identifier
+		condPos := b.Nodes[len(b.Nodes)-1].Pos()
+		var allowedExit func(e ast.Expr, exitWhen bool) bool
+		allowedExit = func(e ast.Expr, exitWhen bool) bool {
+			ce := ast.Unparen(e)
+			if u, ok := ce.(*ast.UnaryExpr); ok && u.Op == token.NOT {
+				return allowedExit(u.X, !exitWhen)
+			}
+			switch x := ce.(type) {
+			case *ast.Ident:
+				// the ok of a type assertion or map lookup
+				if src := defOf(info.Uses[x], condPos); src != nil {
+					switch y := ast.Unparen(src).(type) {
+					case *ast.TypeAssertExpr:
+						ts := exprStr(y.Type)
+						if (ts == "*ast.CallExpr" || ts == "*ast.Ident") && !exitWhen {
+							return true // the node is no call / the callee is no bare identifier
+						}
+						if ts == "*types.Builtin" && exitWhen {
+							return true
+						}
+					case *ast.IndexExpr:
+						if sel, ok := ast.Unparen(y.X).(*ast.SelectorExpr); ok && sel.Sel.Name == "Uses" && !exitWhen {
+							return true // undefined callee: recorded as a call to generate
+						}
 					}
-					if ts == "*types.Builtin" && exitWhen {
-						allowed = true
+				}
+			case *ast.BinaryExpr:
+				switch x.Op {
+				case token.LOR:
+					if exitWhen {
+						return allowedExit(x.X, true) && allowedExit(x.Y, true) // either disjunct alone ends the visit
 					}
-				case *ast.IndexExpr:
-					if sel, ok := ast.Unparen(y.X).(*ast.SelectorExpr); ok && sel.Sel.Name == "Uses" && !exitWhen {
-						allowed = true // undefined callee: recorded as a call to generate
+					return allowedExit(x.X, false) || allowedExit(x.Y, false)
+				case token.LAND:
+					if exitWhen {
+						return allowedExit(x.X, true) || allowedExit(x.Y, true)
 					}
+					return allowedExit(x.X, false) && allowedExit(x.Y, false)
+				case token.EQL, token.NEQ:
+					if x.Op == token.NEQ {
+						exitWhen = !exitWhen
+					}
+					// exitWhen now refers to the equality holding
+					ok := false
+					for _, side := range []ast.Expr{x.X, x.Y} {
+						if isNilIdent(info, side) && exitWhen {
+							other := x.X
+							if side == x.X {
+								other = x.Y
+							}
+							if t := info.TypeOf(other); t != nil && strings.HasSuffix(t.String(), "token.File") {
+								ok = true // no file for the position (a conversion such as float64())
+							}
+						}
+						if id, isID := ast.Unparen(side).(*ast.Ident); isID && id.Name == "derivedFilename" {
+							ok = exitWhen // defined in the previous output: queued for regeneration instead
+						}
+					}
+					return ok
 				}
 			}
-		case *ast.BinaryExpr:
-			if x.Op == token.EQL || x.Op == token.NEQ {
-				if x.Op == token.NEQ {
-					exitWhen = !exitWhen
-				}
-				// exitWhen now refers to the equality holding
-				for _, side := range []ast.Expr{x.X, x.Y} {
-					if isNilIdent(info, side) && exitWhen {
-						other := x.X
-						if side == x.X {
-							other = x.Y
-						}
-						if t := info.TypeOf(other); t != nil && strings.HasSuffix(t.String(), "token.File") {
-							allowed = true // no file for the position (a conversion such as float64())
-						}
-					}
-					if id, ok := ast.Unparen(side).(*ast.Ident); ok && id.Name == "derivedFilename" {
-						allowed = exitWhen // defined in the previous output: queued for regeneration instead
-					}
-				}
+			return false
+		}
+		allowed := allowedExit(cond, exitWhen)
+		if id, isID := ast.Unparen(cond).(*ast.Ident); isID {
+			if src := defOf(info.Uses[id], condPos); src != nil {
+				what = exprStr(src) + " " + map[bool]string{true: "succeeds", false: "fails"}[exitWhen]
 			}
 		}
 		if !allowed {
@@ -1342,6 +1363,25 @@ func g29EqDefaults(r *Repo, rep *Report) {
 		}
 		n++
 		for _, a := range c.Args {
+			// a local with one definition stands for that definition (from, to := types.Default(a), types.Default(b))
+			if id, isID := ast.Unparen(a).(*ast.Ident); isID {
+				if lv, isVar := info.Uses[id].(*types.Var); isVar {
+					var defs []ast.Expr
+					ast.Inspect(fi.Decl.Body, func(k ast.Node) bool {
+						if as, ok := k.(*ast.AssignStmt); ok && len(as.Lhs) == len(as.Rhs) {
+							for j, l := range as.Lhs {
+								if lid, ok := l.(*ast.Ident); ok && objOf(info, lid) == types.Object(lv) {
+									defs = append(defs, as.Rhs[j])
+								}
+							}
+						}
+						return true
+					})
+					if len(defs) == 1 {
+						a = defs[0]
+					}
+				}
+			}
 			ac, isCall := ast.Unparen(a).(*ast.CallExpr)
 			isDefault := false
 			if isCall {
